@@ -499,6 +499,24 @@ func (vc *VC) execBuiltin(fr *frame, n *Node, x *ssa.Call, b *ssa.Builtin) {
 		vc.bind(n, x, nn)
 	case "delete":
 		mt := args[0].Typ.Underlying().(*types.Map)
+		// inside a range over a map of the same type: the exhaustiveness fact at that loop's exit is sound only if the
+		// deletion hits another map object — an obligation of its own
+		if fr == vc.top {
+			for l := fr.innermostLoop(n.blk); l != nil; l = l.parent {
+				for _, in := range l.header.Instrs {
+					nx, ok := in.(*ssa.Next)
+					if !ok || nx.IsString {
+						continue
+					}
+					rg, _ := nx.Iter.(*ssa.Range)
+					g := vc.rangeGhosts[rg]
+					if g == nil || typeKey(g.mt) != typeKey(mt) {
+						continue
+					}
+					vc.oblige("rangedelete", fmt.Sprintf("rangedelete.b%d", n.blk.Index), "delete inside a range over a map of the same type removes from a different map", vc.pos(x.Pos()), n.reach, not(fmt.Sprintf("(= %s %s)", args[0].T, g.mapT)))
+				}
+			}
+		}
 		vc.mapDelete(st, mt, args[0].T, args[1].T)
 	case "min", "max":
 		t := x.Type()
@@ -841,12 +859,16 @@ func (vc *VC) callSiteAsserts(fr *frame, n *Node, x *ssa.Call, callee string, ar
 		cs.Hits++
 		lookup := vc.nodeLookup(fr, n, x, args)
 		entryLookup := func(name string) (Val, bool) { return vc.paramLookup(fr, name) }
-		ctx := &SpecCtx{vc: vc, lookup: lookup, st: n.st, oldSt: fr.entrySt, oldLookup: entryLookup, pkg: fr.fn.Pkg.Pkg, fnName: fr.fn.Name(), fr: fr}
+		ctx := &SpecCtx{vc: vc, lookup: lookup, st: n.st, oldSt: fr.entrySt, oldLookup: entryLookup, pkg: fr.fn.Pkg.Pkg, fnName: fr.fn.Name(), fr: fr, loop: fr.innermostLoop(n.blk)}
 		t, err := ctx.EvalBool(cs.C.E)
 		if err != nil {
-			vc.errorf("callsite %s %q: %v", callee, cs.C.Text, err)
+			// the clause mentions a variable that is not in scope at this call (e.g. a loop local, for a call after
+			// the loop): it does not apply here; a clause that applies to no call at all is a binding failure
+			cs.C.Skipped++
+			vc.enc.notes[fmt.Sprintf("callsite clause %q does not apply to the call of %s at %s (%v)", truncate(cs.C.Text, 40), callee, vc.pos(x.Pos()), err)] = true
 			continue
 		}
+		cs.C.Applied++
 		vc.oblige("assert", fmt.Sprintf("callsite.%s%s.b%d", callee, labelOr(cs.C.Label, 0), n.blk.Index), cs.C.Text, vc.pos(x.Pos()), n.reach, t)
 	}
 }
